@@ -92,6 +92,10 @@ class SimEvaluator:
         self.calls.append(rec)
 
         for f in self.faults:
+            if f.get("eval") == k and f["kind"] == "interrupt":
+                self._fire("evaluator_interrupts")
+                rec.raised = "interrupt"
+                raise KeyboardInterrupt(f"simulated interrupt in the evaluator at call {k}")
             if f.get("eval") == k and f["kind"] in ("raise", "abort"):
                 self._fire("evaluator_" + f["kind"] + "s")
                 rec.raised = f["kind"]
